@@ -1,5 +1,6 @@
 import PEval.Lemmas.Threshold
 import PEval.Lemmas.ThresholdConfig
+import PEval.Lemmas.ThresholdTargets
 import PEval.Gen.Enums
 /-!
 # C15 — configurations are validated; thresholds normalised to one value per label
@@ -646,5 +647,375 @@ a change that makes the code consult another key (or stop consulting one) breaks
 theorem readKeys_match_source :
     (∀ k ∈ Gen.perceptionConfigReadKeys, k ∈ readKeys ∨ k ∈ readWithoutEffect) ∧
     (∀ k ∈ readKeys, k ∈ Gen.perceptionConfigReadKeys) := by decide +kernel
+
+/-! ## audit round 2
+
+### `nLabels` is the number of target labels OF THE CONFIGURATION
+
+`configTargetLabels d` is the model of `PerceptionEvaluationConfig(..).target_labels`: the `target_labels` entry of
+the dictionary converted by the configuration's own label converter (`label_prefix`, `merge_similar_labels`, task),
+through the converter model of C14 (`PEval.Label.setTargetLists` / `convertName`). -/
+
+/-- the count an accepted configuration works with is the length of ITS converted target-label list; that list is
+not empty -/
+theorem config_nLabels_is_target_count {d : Dict} {frames : List String} {a : Accepted}
+    (h : perceptionConfig d frames = .ok a) :
+    ∃ L, configTargetLabels d = .ok L ∧ a.nLabels = L.length ∧ L ≠ [] := by
+  obtain ⟨t, fam, L, _, _, hL, hc, hn⟩ := perceptionConfig_targets h
+  refine ⟨L, hc, hn, ?_⟩
+  intro e
+  subst e
+  -- an accepted configuration has at least one label: the label enums are not empty
+  obtain ⟨_, _, _, _, _, _, _, _, hper, _⟩ := config_accept_sound h
+  obtain ⟨v, _, hv⟩ := hper "max_x_position_list" (by simp [perLabelFilterKeys])
+  -- direct argument on the list model
+  have hpos : 1 ≤ (Label.familyMembers fam).length := by
+    unfold Label.familyMembers; split <;> decide
+  have hcl := targetLabelCount_eq_length (get d "target_labels") t fam
+  rw [hL] at hcl
+  have := targetLabelCount_pos hcl hpos
+  simp at this
+
+/-- what the target-label list of a configuration is, in closed form: every member of the label family of
+`label_prefix` (in definition order) when `target_labels` is absent / `None` / empty; otherwise the entries converted
+one by one by `convert_name` of the configuration's converter — by `C14.targets_same_mapping` the label an OBJECT
+with that name receives -/
+theorem config_targets_closed_form {d : Dict} {L : List String} (h : configTargetLabels d = .ok L) :
+    ∃ task t fam, checkTasks Gen.perceptionSupportTasks d = .ok task ∧ converterOf task d = .ok (t, fam) ∧
+      ((get d "target_labels" = .none ∨ get d "target_labels" = .list [] ∨ get d "target_labels" = .str "") →
+        L = Label.familyMembers fam) ∧
+      (∀ xs, get d "target_labels" = .list xs → xs ≠ [] →
+        (∀ x ∈ xs, isStr x = true) ∧ L = xs.map (fun x => Label.convertName t (strOf x))) := by
+  unfold configTargetLabels at h
+  split at h
+  · cases h
+  · rename_i task htask
+    split at h
+    · cases h
+    · split at h
+      · cases h
+      · rename_i t fam hconv
+        refine ⟨task, t, fam, htask, hconv, ?_, ?_⟩
+        · rintro (e | e | e) <;> rw [e] at h <;> simp [targetLabelList, Label.setTargetLists] at h <;> exact h.symm
+        · intro xs e hne
+          rw [e] at h
+          unfold targetLabelList at h
+          have h0 : (xs.length == 0) = false := by
+            cases xs with
+            | nil => exact absurd rfl hne
+            | cons _ _ => rfl
+          simp only [h0, Bool.false_eq_true, if_false] at h
+          by_cases ha : xs.all isStr = true
+          · simp only [ha, if_true] at h
+            refine ⟨fun x hx => List.all_eq_true.mp ha x hx, ?_⟩
+            cases xs with
+            | nil => exact absurd rfl hne
+            | cons x xs =>
+              simp only [Label.setTargetLists, Except.ok.injEq] at h
+              rw [← h]; simp [List.map_map, Function.comp_def]
+          · simp [ha] at h
+
+/-- **accepted configurations, restated with the configuration's own target labels.**  `L` is the converted
+target-label list of `d`.  Every per-label filter list has exactly `L.length` numbers — and is `None` exactly when its
+parameter is not given (`max_matchable_radii`, `min_point_numbers`, `confidence_threshold`); the four range lists
+follow the one range kind that is given (x/y given ⇒ the two position lists are normal forms of length `L.length` and
+the distance lists are `None`, and vice versa; all `None` only for a 2-D task); every metric list is empty or a
+non-empty list of rows of exactly `L.length` numbers.  (The "no unknown metric parameter" clause is absent: F8.) -/
+theorem config_accept_sound_targets {d : Dict} {frames : List String} {a : Accepted}
+    (h : perceptionConfig d frames = .ok a) :
+    ∃ L, configTargetLabels d = .ok L ∧ L ≠ [] ∧ a.nLabels = L.length ∧
+      (∀ k ∈ perLabelFilterKeys, ∃ v, a.filtering.lookup k = some v ∧ (v = .none ∨ IsFlatNorm L.length v)) ∧
+      (∀ kk ∈ [("max_matchable_radii", "max_matchable_radii"), ("min_point_numbers", "min_point_numbers"),
+                ("confidence_threshold_list", "confidence_threshold")],
+        ∃ v, a.filtering.lookup kk.1 = some v ∧
+          ((get d kk.2 = .none ∧ v = .none) ∨ (given (get d kk.2) = true ∧ IsFlatNorm L.length v))) ∧
+      (∃ xl yl dl ml, RangeFacts a.task d L.length xl yl dl ml ∧
+        a.filtering.lookup "max_x_position_list" = some xl ∧ a.filtering.lookup "max_y_position_list" = some yl ∧
+        a.filtering.lookup "max_distance_list" = some dl ∧ a.filtering.lookup "min_distance_list" = some ml) ∧
+      (∀ m, a.metrics = some m →
+        m.map (·.1) = metricThresholdKeys ∧ ∀ kv ∈ m, kv.2 = .list [] ∨ IsNestedNorm L.length kv.2) := by
+  obtain ⟨L, hL, hn, hne⟩ := config_nLabels_is_target_count h
+  obtain ⟨_, _, _, _, _, _, _, _, hper, hmet⟩ := config_accept_sound h
+  refine ⟨L, hL, hne, hn, by rw [← hn]; exact hper, ?_, ?_, by rw [← hn]; exact hmet⟩
+  all_goals
+    unfold perceptionConfig at h
+    split at h
+    · cases h
+    · split at h
+      · cases h
+      · split at h
+        · cases h
+        · split at h
+          · cases h
+          · split at h
+            · cases h
+            · rename_i n f m hex
+              split at h
+              · cases h
+              · split at h
+                · cases h
+                · split at h
+                  · cases h
+                  · cases h
+                    simp only at hn
+                    rw [← hn]
+                    first
+                      | exact (extractParams_ok hex).range
+                      | (obtain ⟨_, _, ⟨v1, l1, o1⟩, ⟨v2, l2, o2⟩, ⟨v3, l3, o3⟩⟩ := extractParams_steps hex
+                         intro kk hkk
+                         simp only [List.mem_cons, List.not_mem_nil, or_false] at hkk
+                         rcases hkk with rfl | rfl | rfl
+                         · exact ⟨v1, l1, optFlat_ok o1⟩
+                         · exact ⟨v2, l2, optFlat_ok o2⟩
+                         · exact ⟨v3, l3, optFlat_ok o3⟩)
+
+/-- clause 8 as the code implements it (finding F8, stated about the dictionary): whatever keys the user supplies,
+the keys handed to the metrics configuration are the four fixed threshold names — which is why `_check_parameters`
+can never reject a user-supplied key -/
+theorem metrics_params_keys_fixed {task : String} {nAll : Nat} {d : Dict} {n : Nat} {f m : Dict}
+    (h : extractParams task nAll d = .ok (n, f, m)) :
+    m.map (·.1) = metricThresholdKeys ∧ ∀ k ∈ metricThresholdKeys, m.lookup k = some (get d k) := by
+  have hm := (extractParams_ok h).metrics
+  subst hm
+  constructor
+  · simp [metricThresholdKeys]
+  · intro k hk
+    simp only [metricThresholdKeys, List.mem_cons, List.not_mem_nil, or_false] at hk
+    rcases hk with rfl | rfl | rfl | rfl <;> simp [metricThresholdKeys, List.lookup]
+
+/-! ### error exits -/
+
+/-- whatever makes the target-label list of the configuration fail — unsupported task, bad policy, missing or
+unknown `label_prefix`, a `target_labels` value that is not a list of strings — makes the configuration fail with
+that same exception -/
+theorem config_rejects_bad_targets {d : Dict} (frames : List String) {e : Err}
+    (h : configTargetLabels d = .error e) : perceptionConfig d frames = .error e :=
+  perceptionConfig_error_of_targets frames h
+
+/-- the error exits of `set_target_lists` on the `target_labels` value: `AttributeError` exactly for a non-empty list
+with an entry that is not a string, `TypeError` exactly for a number / bool / other object; nothing else fails -/
+theorem target_list_error_iff (v : PyVal) (t : Label.Table) (fam : String) :
+    (targetLabelList v t fam = .error "AttributeError" ↔
+      ∃ xs, v = .list xs ∧ xs ≠ [] ∧ ∃ x ∈ xs, isStr x = false) ∧
+    (targetLabelList v t fam = .error "TypeError" ↔ ((∃ q, v = .num q) ∨ (∃ b, v = .bool b) ∨ ∃ s, v = .other s)) ∧
+    (∀ e, targetLabelList v t fam = .error e → e = "AttributeError" ∨ e = "TypeError") :=
+  targetLabelList_error_iff v t fam
+
+/-- a bound of BOTH range kinds given (partly or completely): no configuration is accepted, for every task — 2-D
+tasks included; and when the stages before the range block pass, the exception is `RuntimeError` -/
+theorem config_rejects_both_range_kinds (d : Dict) (frames : List String)
+    (hb : ((given (get d "max_x_position") || given (get d "max_y_position")) &&
+           (given (get d "max_distance") || given (get d "min_distance"))) = true) :
+    (∀ a, perceptionConfig d frames ≠ .ok a) ∧
+    (∀ L, configTargetLabels d = .ok L → perceptionConfig d frames = .error "RuntimeError") := by
+  have hnot : ∀ a, perceptionConfig d frames ≠ .ok a := by
+    intro a h
+    unfold perceptionConfig at h
+    split at h
+    · cases h
+    · split at h
+      · cases h
+      · split at h
+        · cases h
+        · split at h
+          · cases h
+          · split at h
+            · cases h
+            · rename_i n f m hex
+              obtain ⟨_, ⟨r, hr⟩, _⟩ := extractParams_steps hex
+              rw [rangeParams_both_kinds _ d n hb] at hr
+              cases hr
+  refine ⟨hnot, ?_⟩
+  intro L hL
+  unfold configTargetLabels at hL
+  unfold perceptionConfig
+  cases hct : checkTasks Gen.perceptionSupportTasks d with
+  | error e' => rw [hct] at hL; cases hL
+  | ok task =>
+    rw [hct] at hL
+    simp only at hL ⊢
+    cases hpol : matchingPolicy d with
+    | error e' => rw [hpol] at hL; cases hL
+    | ok u =>
+      rw [hpol] at hL
+      simp only at hL ⊢
+      unfold converterOf at hL
+      cases hpre : d.lookup "label_prefix" with
+      | none => rw [hpre] at hL; cases hL
+      | some pre =>
+        rw [hpre] at hL
+        simp only at hL ⊢
+        cases pre with
+        | str p =>
+          simp only at hL
+          have hsz := labelTypeSize_eq_tableFor p (mergeFlag d) ((Enums.setTask task).getD task)
+          cases htf : Label.tableFor p (mergeFlag d) ((Enums.setTask task).getD task) with
+          | error e' => rw [htf] at hL; cases hL
+          | ok r =>
+            rw [htf] at hsz hL
+            simp only at hsz hL
+            have hcl := targetLabelCount_eq_length (get d "target_labels") r.1 r.2
+            rw [hL] at hcl
+            simp only at hcl
+            rw [hsz]
+            simp only
+            unfold extractParams
+            rw [hcl]
+            simp only
+            rw [rangeParams_both_kinds _ d _ hb]
+        | num q => cases hL
+        | bool b => cases hL
+        | none => cases hL
+        | list xs => cases hL
+        | other s => cases hL
+
+/-- a 3-D task without a complete kind of range bound is never accepted -/
+theorem config_rejects_incomplete_range_3d (d : Dict) (frames : List String)
+    (hxy : (given (get d "max_x_position") && given (get d "max_y_position")) = false)
+    (hd : (given (get d "max_distance") && given (get d "min_distance")) = false) :
+    ∀ a, perceptionConfig d frames = .ok a → is3d a.task = false := by
+  intro a h
+  obtain ⟨_, _, _, h3, _⟩ := config_accept_sound h
+  cases h3d : is3d a.task with
+  | false => rfl
+  | true =>
+    rcases h3 h3d with ⟨a1, a2, _, _⟩ | ⟨_, _, a3, a4⟩
+    · simp [a1, a2] at hxy
+    · simp [a3, a4] at hd
+
+/-! ### the frame configurations: the hypothesis `1 ≤ nAll` discharged, `n` tied to the target labels -/
+
+/-- the regenerated label enums are not empty, so `labelTypeSize` never answers 0 -/
+theorem label_enum_sizes_pos : 1 ≤ Gen.autowareLabel.length ∧ 1 ≤ Gen.trafficLightLabel.length ∧
+    ∀ p n, labelTypeSize p = .ok n → 1 ≤ n := by
+  refine ⟨by decide, by decide, ?_⟩
+  intro p n h
+  unfold labelTypeSize at h
+  split at h
+  · split at h
+    · cases h; decide
+    · split at h
+      · cases h; decide
+      · split at h <;> cases h
+  · cases h
+
+/-- `CriticalObjectFilterConfig` / `PerceptionPassFailConfig` of an evaluator whose converter is `(t, fam)`: the `n`
+of `critical_accept_sound` / `passfail_accept_sound` is the length of the converted `target_labels` argument -/
+theorem frame_config_n_is_target_count (t : Label.Table) (fam : String) (args : Dict) :
+    (∀ is2d n f, criticalFilterConfig is2d (Label.familyMembers fam).length args = .ok (n, f) →
+      ∃ L, targetLabelList (get args "target_labels") t fam = .ok L ∧ n = L.length ∧ L ≠ []) ∧
+    (∀ n f, passFailConfig (Label.familyMembers fam).length args = .ok (n, f) →
+      ∃ L, targetLabelList (get args "target_labels") t fam = .ok L ∧ n = L.length ∧ L ≠ []) := by
+  have hpos : 1 ≤ (Label.familyMembers fam).length := by
+    unfold Label.familyMembers; split <;> decide
+  have key : ∀ n, targetLabelCount (get args "target_labels") (Label.familyMembers fam).length = .ok n →
+      ∃ L, targetLabelList (get args "target_labels") t fam = .ok L ∧ n = L.length ∧ L ≠ [] := by
+    intro n hn
+    have hcl := targetLabelCount_eq_length (get args "target_labels") t fam
+    rw [hn] at hcl
+    cases hL : targetLabelList (get args "target_labels") t fam with
+    | error e => rw [hL] at hcl; cases hcl
+    | ok L =>
+      rw [hL] at hcl
+      simp only [Except.ok.injEq] at hcl
+      refine ⟨L, rfl, hcl, ?_⟩
+      intro e; subst e
+      have := targetLabelCount_pos hn hpos
+      simp [hcl] at this
+  constructor
+  · intro is2d n f h
+    unfold criticalFilterConfig at h
+    split at h
+    · cases h
+    · rename_i n' hn'
+      simp only at h
+      split at h
+      · cases h
+      · split at h
+        · cases h
+        · split at h
+          · cases h
+          · cases h; exact key _ hn'
+  · intro n f h
+    unfold passFailConfig at h
+    split at h
+    · cases h
+    · rename_i n' hn'
+      split at h
+      · cases h
+      · split at h
+        · cases h
+        · cases h; exact key _ hn'
+
+/-! ### idempotence, for ALL numbers of labels -/
+
+/-- the exact range of idempotence: an accepted result is a fixed point exactly when there is at least one target
+label.  For `n = 0` the flat mode accepts a scalar (result `[]`) and then rejects its own result ("empty list is
+invalid"); the nested mode accepts nothing for `n = 0`.  Configurations always have `n ≥ 1`
+(`config_nLabels_is_target_count`). -/
+theorem setThresholds_idem_iff {v : PyVal} {n : Nat} {nest : Bool} {r : PyVal}
+    (h : setThresholds v n nest = .ok r) : setThresholds r n nest = .ok r ↔ 1 ≤ n := by
+  constructor
+  · intro h2
+    cases nest
+    · obtain ⟨xs, e, hl⟩ := setThresholds_shape_flat h
+      subst e
+      cases n with
+      | zero =>
+        have : xs = [] := List.length_eq_zero_iff.mp hl
+        subst this
+        simp [setThresholds, getThresholds, thresholdError] at h2
+      | succ k => omega
+    · exact (setThresholds_shape_nested h).1
+  · exact setThresholds_idem h
+
+example : setThresholds (.num 1) 0 false = .ok (.list []) ∧ setThresholds (.list []) 0 false = thresholdError := by
+  decide +kernel
+
+/-! ### the new statements say something: defective variants and instances -/
+
+/-- a configuration with two target labels and scalar thresholds only -/
+def exampleConfig2 : Dict :=
+  [("evaluation_task", .str "detection"), ("target_labels", .list [.str "Car", .str "trailer"]),
+   ("max_x_position", .num 100), ("max_y_position", .num 50), ("min_point_numbers", .num 0),
+   ("label_prefix", .str "autoware"), ("merge_similar_labels", .bool true)]
+
+example : configTargetLabels exampleConfig2 = .ok ["CAR", "CAR"] := by decide +kernel
+example : configTargetLabels (exampleConfig2.filter (·.1 != "merge_similar_labels")) = .ok ["CAR", "TRUCK"] := by
+  decide +kernel
+example : (perceptionConfig exampleConfig2 ["base_link"]).toOption.map (·.nLabels) = some 2 := by decide +kernel
+/-- the defective variant that sizes everything by the label enum: its lists all share ONE length (the old statement
+holds of it), but that length is not the number of target labels of the configuration -/
+example : (extractParams_ignoreTargets "detection" Gen.autowareLabel.length exampleConfig2).toOption.map
+      (fun r => (r.1, (r.2.1.lookup "max_x_position_list").map lenOf, (r.2.1.lookup "min_point_numbers").map lenOf)) =
+    some (9, some 9, some 9) := by decide +kernel
+example : ¬ ∃ r L, extractParams_ignoreTargets "detection" Gen.autowareLabel.length exampleConfig2 = .ok r ∧
+    configTargetLabels exampleConfig2 = .ok L ∧ r.1 = L.length := by
+  rintro ⟨r, L, h1, h2, h3⟩
+  have e1 : extractParams_ignoreTargets "detection" Gen.autowareLabel.length exampleConfig2 =
+      extractParams "detection" 9 (exampleConfig2.filter (fun kv => kv.1 != "target_labels")) := rfl
+  have e2 : configTargetLabels exampleConfig2 = .ok ["CAR", "CAR"] := by decide +kernel
+  rw [e2] at h2; cases h2
+  have : (extractParams_ignoreTargets "detection" Gen.autowareLabel.length exampleConfig2).toOption.map (·.1) = some 9 := by
+    decide +kernel
+  rw [h1] at this
+  simp [Except.toOption] at this
+  rw [this] at h3
+  simp at h3
+example : configTargetLabels (("target_labels", .list [.str "car", .num 1]) :: exampleConfig2) = .error "AttributeError" ∧
+    perceptionConfig (("target_labels", .list [.str "car", .num 1]) :: exampleConfig2) ["base_link"] =
+      .error "AttributeError" := by decide +kernel
+example : perceptionConfig (("min_distance", .num 1) :: exampleConfig2) ["base_link"] = .error "RuntimeError" := by
+  decide +kernel
+/-- a 2-D task with both kinds is rejected as well -/
+example : perceptionConfig [("evaluation_task", .str "detection2d"), ("label_prefix", .str "autoware"),
+      ("max_x_position", .num 1), ("max_distance", .num 2)] ["cam_front"] = .error "RuntimeError" := by
+  decide +kernel
+example : criticalFilterConfig false (Label.familyMembers "autoware").length
+      [("target_labels", .list [.str "car", .str "bus"]), ("max_x_position_list", .list [.num 1, .num 2]),
+       ("max_y_position_list", .list [.num 1, .num 2])] =
+    .ok (2, [("max_x_position_list", .list [.num 1, .num 2]), ("max_y_position_list", .list [.num 1, .num 2]),
+             ("max_distance_list", .none), ("min_distance_list", .none), ("min_point_numbers", .none),
+             ("confidence_threshold_list", .none)]) := by decide +kernel
 
 end PEval.C15
